@@ -280,3 +280,53 @@ Theorem C01_refine_handle_total : forall cfg pol user s sigma r sigma' resp,
   (forall s1, Repr.R s1 sigma1 -> Fs.fs_inv_weak s1 -> ReprTotal.pstep_ok sigma1 sigma' s1) /\ store_inv sigma'.
 Proof. exact ReprTotal.handle_total. Qed.
 Print Assumptions C01_refine_handle_total.
+
+(* ---------------------------------------------------------------------------------------------------------
+   "... and nothing else appears or disappears", over whole histories: an item stays exactly as stored until a
+   request addresses it.  [leaves p r]: r is not a PUT or DELETE of p or of a collection above p, not a MOVE from
+   or onto p, not a MKCOL/MKCALENDAR on p's name.  Every other request -- carried out or refused, of any kind, on
+   siblings, on other collections, on p's own collection's properties -- leaves the content at p as it is.
+   --------------------------------------------------------------------------------------------------------- *)
+Require RV.Proofs.C01Stable RV.Lib.Item.
+Import RV.Proofs.C01Stable RV.Lib.Item.
+
+Theorem C01_item_stable : forall cfg pol user s r p o,
+  item_at s p o -> leaves p r = true -> item_at (fst (handle cfg pol user s r)) p o.
+Proof. exact handle_stable. Qed.
+Print Assumptions C01_item_stable.
+
+Theorem C01_history_stable : forall cfg pol user rs s p o,
+  item_at s p o -> forallb (leaves p) rs = true -> item_at (fst (run_history cfg pol user s rs)) p o.
+Proof. exact history_stable. Qed.
+Print Assumptions C01_history_stable.
+
+(* read your writes across unrelated traffic: after a successful item PUT of o at p and ANY history that does not
+   address p, a GET by anybody who may read p returns o. *)
+Theorem C01_read_your_writes : forall cfg pol s p ct b im inm s1 o rs pol' user',
+  store_inv s ->
+  do_put cfg pol s p ct b im inm = (s1, (S201, PEtag (EtItem o))) ->
+  forallb (leaves p) rs = true ->
+  check pol' p lr NoItem = true -> check pol' p lr IsItem = true ->
+  do_get pol' (fst (run_history cfg pol user' s1 rs)) p = (S200, PItem o).
+Proof. exact read_your_writes. Qed.
+Print Assumptions C01_read_your_writes.
+
+(* non-vacuity: /10/20/100 holds ex_ob; a sibling PUT, a PROPPATCH of its calendar, a MKCALENDAR next to it, a DELETE
+   of the sibling, a MOVE between two other names and a refused DELETE of another user's home all leave it; and the
+   hypothesis is needed: a DELETE of the calendar removes it. *)
+Example C01_stable_nonvacuous :
+  let pol := fun _ : path => [82; 87; 114; 119] in
+  let rs := [RPut [10; 20; 101] CTNone (BCal [mkObj 5 CEvent 7]) CNone false;
+             RProppatch [10; 20] (XProps TRNone [(1, Some 2)]);
+             RMkcalendar [10; 21] XNone;
+             RMove [10; 20; 101] true [10; 20; 102] false;
+             RDelete [10; 20; 102] CNone;
+             RDelete [11] CNone] in
+  item_at ReprExample.ex_sig3 [10; 20; 100] ReprExample.ex_ob
+  /\ forallb (leaves [10; 20; 100]) rs = true
+  /\ map fst (snd (run_history (mkConfig true true) pol (Some 10) ReprExample.ex_sig3 rs)) = [S201; S207; S201; S201; S200; S404]
+  /\ leaves [10; 20; 100] (RDelete [10; 20] CNone) = false
+  /\ resolve (fst (handle (mkConfig true true) pol (Some 10) ReprExample.ex_sig3 (RDelete [10; 20] CNone))) [10; 20; 100] = NNothing.
+Proof.
+  cbv zeta. split; [eexists; vm_compute; reflexivity|]. repeat split; vm_compute; reflexivity.
+Qed.
